@@ -48,6 +48,9 @@ import numpy as np
 from .. import core
 from ..core import fbits, unfbits
 
+USES_TRANSLATOR = True          # the normalised cut-offs handed to butter (flt_*_wn) are regenerated from qats/signal.py
+ANCHOR_PREFIX = ("flt_",)
+
 RULE = ("seeded sampling intervals 10^U(-3,1) s (plus dyadic steps) x four filter types x cut-offs log-uniform in "
         "[lo, 0.97] Nyquist (lo = 0.02 quick, 0.008 thorough; band width >= lo) x test frequency (30 % exactly a cut-off, 40 % "
         "within a factor 2 of one, 30 % anywhere in (0.01, 0.985) Nyquist) x amplitude, phase, mean; record length "
@@ -1374,6 +1377,8 @@ def run(chk):
         if rec is not None:
             lines.append(design_line(kind, dt_model, fcs))
             meta.append(("design", stream, case, inp, rec, meas))
+            lines.append(design_line(kind, dt_model, fcs).replace("flt.design", "flt.srcwn", 1))
+            meta.append(("srcwn", stream, case, inp, rec, meas))
         lines.append("flt.steady %s %s %s %s | %s %s %s" % (kind, fbits(dt_model), fbits(mean), " ".join(fbits(v) for v in fcs),
                                                             fbits(A), fbits(f), fbits(ph)))
         meta.append(("steady", stream, case, inp, rec, meas))
@@ -1454,6 +1459,15 @@ def run(chk):
             why = compare_design(o, rec, design_notes, wn_tol=2e-7 if single else 1e-14)
             if why is not None:
                 chk.disagree(stream + "design", dict(inp, differs_in=why), o, jsonable(rec))
+        elif what == "srcwn":
+            # the expressions regenerated from the source (translator) against what the code really handed to butter
+            chk.count(stream + "srcwn")
+            single = "np.float32" in (case.get("spell") or {}).values()
+            tok = o.split()
+            wn_tol = 2e-7 if single else 1e-14
+            if "error" not in rec and (tok[0] != "ok" or len(tok) - 1 != len(rec["wn"]) or
+                                       any(abs(a - unfbits(b)) > wn_tol * abs(a) for a, b in zip(rec["wn"], tok[1:]))):
+                chk.disagree(stream + "srcwn", dict(inp, differs_in="Wn (generated formula)"), o, jsonable(rec))
         elif what == "steady":
             chk.count(stream + "steady")
             tok = o.split()
